@@ -26,6 +26,7 @@ CONSTANTS Layouts     \* set of [items : Seq(Item), pkgdoc, build, imports, sibl
          nmeth, short, oneline, mdoc, trail, after, gap, long (a comment line much longer than the directive line below it),
          nm (how the interface is called relative to the file's other converter interface: std | prefix | long)]
    [k |-> "tmark", id]     a non-interface type whose doc carries a :convergen line
+   [k |-> "vmark", id]     a VARIABLE of an interface type whose doc carries a :convergen line (no interface declaration)
    [k |-> "float", id]     a comment attached to nothing
    sibling: "none" | "marked" | "named"   another file of the package with a marked / Convergen-named interface
    embed:   "none" | "file" | "sibling"   the first converter interface embeds an unmarked interface with one method,
@@ -65,7 +66,7 @@ OType(it)  == [k |-> "decl", id |-> it.id, doc |-> TRUE, trail |-> FALSE, nf |->
 Scan == /\ pc = "scan" /\ i <= Len(Items)
         /\ LET it == Items[i] IN
            out' = CASE it.k = "decl"  -> Append(out, ODecl(it))
-                    [] it.k = "tmark" -> Append(out, OType(it))                  \* a marked non-interface is just a type
+                    [] it.k \in {"tmark", "vmark"} -> Append(out, OType(it))       \* a marked non-interface declaration is just a declaration
                     [] it.k = "float" -> out                                      \* floating comments are not demanded
                     [] Selected(it)   -> Append(out, OFuncs(i))                   \* replaced IN PLACE by its functions
                     [] OTHER          -> Append(out, OIntf(it))                   \* any other interface is carried over untouched
